@@ -218,3 +218,25 @@ Theorem C12_log_check_sound : forall c ls s log, run c (init c) ls = Some s ->
   shrinks (map erase (visible ls)) log -> admissible (lax c) log = true.
 Proof. exact log_check_sound. Qed.
 Print Assumptions C12_log_check_sound.
+
+(* test-name arguments (meson test NAME... with fnmatch `*`/`?` and `subproject:` prefixes),
+   --suite / --no-suite / --exclude: the first-match loop of tests_from_args yields exactly
+   the tests matched by SOME argument; the selection is a subsequence of the defined tests,
+   so a test matched by several arguments is selected — hence started — once *)
+Theorem C12_name_arguments_first_match : forall pats ts,
+  tests_from_args pats ts = filter (fun t => existsb (arg_matches t) pats) ts.
+Proof. exact tests_from_args_filter. Qed.
+Print Assumptions C12_name_arguments_first_match.
+Theorem C12_selection_is_subsequence : forall o tests l, get_tests o tests = SelOk l -> subseq l tests.
+Proof. exact get_tests_subseq. Qed.
+Print Assumptions C12_selection_is_subsequence.
+Theorem C12_selection_no_duplicates : forall o tests l,
+  NoDup (map tkey tests) -> get_tests o tests = SelOk l -> NoDup (map tkey l).
+Proof. exact get_tests_no_duplicates. Qed.
+Print Assumptions C12_selection_no_duplicates.
+Theorem C12_selection_exact : forall o tests l, get_tests (no_slice o) tests = SelOk l ->
+  forall t, In t l <->
+    In t tests /\ test_suitable o t = true /\
+    (o_args o = [] \/ exists a, In a (o_args o) /\ arg_matches t (arg_pattern a) = true).
+Proof. exact get_tests_exact. Qed.
+Print Assumptions C12_selection_exact.
